@@ -166,6 +166,16 @@ fn main() {
                 match Frame::from_bytes(&bytes) {
                     Ok(fr) => {
                         let _ = writeln!(out, "F {hex} {:?} | {:?}", fr, fr.to_string());
+                        // the derived velocity with all its digits (the report floors it, the tracker
+                        // narrows it to f32: neither shows a last-bit difference between the builds)
+                        let me = match &fr.df {
+                            adsb_deku::DF::ADSB(a) => Some(&a.me),
+                            adsb_deku::DF::TisB { cf, .. } => Some(&cf.me),
+                            _ => None,
+                        };
+                        if let Some(adsb_deku::adsb::ME::AirborneVelocity(v)) = me {
+                            let _ = writeln!(out, "C {hex} {:?}", v.calculate());
+                        }
                         #[cfg(feature = "serde")]
                         roundtrip_frame(&fr, hex, &mut out, &mut fails, &mut done);
                     }
